@@ -38,8 +38,8 @@ MatchJ(v, j) ==
 Has(seq, x) == \E i \in 1..Len(seq) : seq[i] = x
 
 \* observed array extends the expected one
-ObsPrefix(v, j) == \/ v.k # "arr"
-                   \/ /\ j.k = "arr" /\ Len(v.v) <= Len(j.v)
+ObsPrefix(v, j) == \/ v.k # "arr" \/ j.k # "arr"
+                   \/ /\ Len(v.v) <= Len(j.v)
                       /\ \A i \in 1..Len(v.v) : MatchJ(v.v[i], j.v[i])
 
 \* rec = [id, prog, out = [how, obs, final, line], chk = sequence of "final" | "line"]
